@@ -232,7 +232,7 @@ def corpus():
     out.append((build_request([], [], {12: [E("PITCH_ENVELOPE", 3)]}), ["malformed"]))
     out.append((build_request([("@2", ["2op", "9", "1", "1", "1", "1", "0"])], [], {12: [E("NOTE", 1, 1, 0)]}), ["malformed"]))
     out.append((build_request([], [], {12: [E("JUMP", 100)], 100: [E("JUMP", 100)]}), ["malformed"]))
-    # inputs of the repository fixes 7061cba, 85bdeee, c469126, db86e99, 357e378
+    # inputs of the repository fixes 696884e, 45b84a6, 54bd60e, d4781ad, 3905cd3
     out.append((build_request([("@1", [])], [], {12: [E("NOTE", 1, 1, 0)]}), ["malformed"]))                       # instrument without a type
     out.append((build_request([("@1", ["psg", "15"]), ("@24", ["2op", "1", "1", "1", "1", "1", "0"])], [], {12: [E("NOTE", 1, 1, 0)]}), ["malformed"]))   # 2op on a PSG instrument
     out.append((build_request([("@1", fm_tokens(1)), ("@2", ["2op", "1", "5", "5", "4", "4", "0"]), ("@3", ["2op", "2", "1", "2", "3", "4", "-4"])], [],
